@@ -41,7 +41,7 @@ covered={
 }
 over={
  ("x/multistaking/keeper.Keeper.autocompoundRewards","sub"):"autoCompoundRewards is a sub-multiset of rewards by construction; runs on a cache context whose errors are discarded",
- ("x/recovery/keeper.Keeper.IncreaseRecoveryTokenUnderlying","sub"):"guarded by TRUNCATION in calcPortion: every allocation is floor(amount * balance / supply) per denom and the registered holders' balances sum to at most the supply, so the allocations sum to at most amount; exercised in real BeginBlocks by the recovery-rewards histories (1..3 holders owning all / part of the supply, odd fees in several denoms)",
+ ("x/recovery/keeper.Keeper.IncreaseRecoveryTokenUnderlying","sub"):"Halt.rr_allocate: safe for DUPLICATE-FREE holders (truncated shares, balances sum to at most the supply: C06_rr_allocate_safe_partial); REACHABLE while GetRRTokenHolders lists by key prefix: a holder of rr/node1 and rr/node10 is listed twice for rr/node1 (finding IncreaseRecoveryTokenUnderlying:neg-coin, pending fix C06-rr-holder-prefix; flag rr_holders_exact_denom, C06_rr_holders_on_this_tree); recovery-rewards and recovery-rewards-prefix histories",
  ("x/recovery/keeper.calcPortion","quo"):"divides by the RR supply: calcPortion is only called for registered holders, UnregisterNotEnoughAmountHolder has just removed every holder below 1000000 units, so a remaining holder implies supply >= 1000000",
  ("x/recovery/keeper.calcPortion","newcoin"):"non-negative: product of non-negative amounts divided by a positive supply, truncated",
  ("x/multistaking/types.GetPoolCoins","sub"):"DeliverTx paths only (Undelegate / redeem): recovered by baseapp",
